@@ -1181,6 +1181,26 @@ func (k *c13k) chanKeyRec(v ssa.Value, seen map[ssa.Value]bool) any {
 	return nil
 }
 
+// c13RecvOnlyVar: the channel variable's static type is <-chan T.
+func c13RecvOnlyVar(key any) bool {
+	var t types.Type
+	switch x := key.(type) {
+	case *ssa.Alloc:
+		if pt, ok := x.Type().Underlying().(*types.Pointer); ok {
+			t = pt.Elem()
+		}
+	case *types.Var:
+		t = x.Type()
+	case *ssa.MakeChan:
+		t = x.Type()
+	}
+	if t == nil {
+		return false
+	}
+	ct, ok := c13IsChan(t)
+	return ok && ct.Dir() == types.RecvOnly
+}
+
 func c13IsChan(t types.Type) (*types.Chan, bool) {
 	ch, ok := t.Underlying().(*types.Chan)
 	return ch, ok
@@ -1395,19 +1415,44 @@ func (k *c13k) oncePerMake(mk *ssa.MakeChan, cl ssa.CallInstruction) (int, strin
 		}
 		return -1, "close is not dominated by the make"
 	}
-	for lvl := F; lvl.Parent() != nil; lvl = lvl.Parent() {
-		P := lvl.Parent()
-		var mcs []*ssa.MakeClosure
-		allInstrs(P, func(in ssa.Instruction) {
-			if mc, ok := in.(*ssa.MakeClosure); ok && mc.Fn == ssa.Value(lvl) {
+	// walk up the chain of invocations: each level runs once per execution of one site in its invoker
+	cur := F
+	for depth := 0; depth < 6; depth++ {
+		site, why := k.invokedOnceBy(cur)
+		if site == nil {
+			return -1, why
+		}
+		if c13InLoop(site) {
+			return 0, "the closing function " + fnName(cur) + " is started in a loop"
+		}
+		if site.Parent() == M {
+			if instrDominates(mk, site) {
+				return 1, "in a function/closure started once per activation after the make"
+			}
+			return -1, "closing function is not started after the make"
+		}
+		cur = site.Parent()
+	}
+	return -1, "relation between the make and the closing function not understood"
+}
+
+// invokedOnceBy: the single instruction (closure creation used once as a call / defer / WaitGroup.Go
+// operand, or the single static call site) whose execution runs fn once.
+func (k *c13k) invokedOnceBy(fn *ssa.Function) (ssa.Instruction, string) {
+	var mcs []*ssa.MakeClosure
+	for _, g := range k.p.OwnFuncs() {
+		allInstrs(g, func(in ssa.Instruction) {
+			if mc, ok := in.(*ssa.MakeClosure); ok && mc.Fn == ssa.Value(fn) {
 				mcs = append(mcs, mc)
 			}
 		})
-		if len(mcs) != 1 {
-			return -1, "closing closure is created at several sites"
-		}
-		if c13InLoop(mcs[0]) {
-			return 0, "the closing closure is started in a loop"
+	}
+	if len(mcs) > 1 {
+		return nil, fnName(fn) + " is turned into a closure at several sites"
+	}
+	if len(mcs) == 1 {
+		if len(k.callers[fn]) > 0 {
+			return nil, fnName(fn) + " is both called and used as a closure"
 		}
 		uses := 0
 		for _, r := range *mcs[0].Referrers() {
@@ -1417,20 +1462,23 @@ func (k *c13k) oncePerMake(mk *ssa.MakeChan, cl ssa.CallInstruction) (int, strin
 			uses++
 			ci, ok := r.(ssa.CallInstruction)
 			if _, isGo := r.(*ssa.Go); !ok || isGo || (c13Ext(ci) != c13WGGo && ci.Common().Value != ssa.Value(mcs[0])) {
-				return -1, "closing closure is used other than as a WaitGroup.Go / call / defer operand"
+				return nil, "closure " + fnName(fn) + " is used other than as a WaitGroup.Go / call / defer operand"
 			}
 		}
 		if uses != 1 {
-			return -1, "closing closure is used more than once"
+			return nil, "closure " + fnName(fn) + " is used more than once"
 		}
-		if P == M {
-			if instrDominates(mk, mcs[0]) {
-				return 1, "in a closure started once per activation after the make"
-			}
-			return -1, "closing closure is not created after the make"
+		return mcs[0], ""
+	}
+	if k.valueUse[fn] {
+		return nil, fnName(fn) + " is used as a function value"
+	}
+	if cs := k.callers[fn]; len(cs) == 1 {
+		if _, isGo := cs[0].(*ssa.Go); !isGo {
+			return cs[0].(ssa.Instruction), ""
 		}
 	}
-	return -1, "relation between the make and the closing function not understood"
+	return nil, fmt.Sprintf("%s has %d static call sites; the rule needs exactly one", fnName(fn), len(k.callers[fn]))
 }
 
 func (k *c13k) r2() {
@@ -1470,6 +1518,9 @@ func (k *c13k) r2() {
 		}
 		if pkg != "uci" && ch.role == "" {
 			continue // channels held by package search are receive-only by type (checked above)
+		}
+		if ch.role == "" && c13RecvOnlyVar(ch.key) {
+			continue // a receive-only variable (e.g. a timer's C kept in a local) can be neither closed nor sent on
 		}
 		keys = append(keys, ch)
 	}
@@ -1645,8 +1696,35 @@ func (k *c13k) sinkUsersOrdered(cl ssa.CallInstruction) (int, string) {
 			return -1, fnName(f) + " prints to the sink but is not reachable from readInput/handleInput"
 		}
 	}
-	if len(callsIn(cl.Parent(), "uci.(*Driver).handleInput")) == 0 {
-		return -1, "the closing function does not run handleInput"
+	G := cl.Parent()
+	if G != k.hIn && len(callsIn(G, "uci.(*Driver).handleInput")) == 0 {
+		return -1, "the closing function neither is nor runs handleInput"
+	}
+	if _, deferred := cl.(*ssa.Defer); !deferred {
+		userCall := func(in ssa.Instruction) bool {
+			ci, ok := in.(ssa.CallInstruction)
+			if !ok {
+				return false
+			}
+			for _, pr := range k.prints {
+				if pr.w == c13wSink && pr.call == ci {
+					return true
+				}
+			}
+			if f := ci.Common().StaticCallee(); f != nil && isOwn(f) {
+				for _, g := range k.p.closure([]*ssa.Function{f}, nil) {
+					if users[g] {
+						return true
+					}
+				}
+				return false
+			}
+			_, isBuiltin := ci.Common().Value.(*ssa.Builtin)
+			return !isBuiltin && ci.Common().StaticCallee() == nil // dynamic call: unknown
+		}
+		if c13After(cl.(ssa.Instruction), userCall, nil) {
+			return 0, "in " + fnName(G) + " code that can print to the sink is reachable after the close"
+		}
 	}
 	return 1, fmt.Sprintf("all %d functions that print to the sink run under readInput/handleInput (goroutines joined, C13.R3) and none under writeOutput", len(users))
 }
@@ -2010,25 +2088,58 @@ func (k *c13k) r5() {
 	if len(sels) == 0 {
 		return
 	}
-	nRet := 0
-	for _, b := range K.Blocks {
-		ret, ok := b.Instrs[len(b.Instrs)-1].(*ssa.Return)
-		if !ok || b == K.Recover {
-			continue
-		}
-		nRet++
-		dom := false
-		for _, s := range sels {
-			if instrDominates(s, ret) {
-				dom = true
+	// leaving: the goroutine reaches a return only through its select (flag loops and
+	// early-return loops alike: paths are enumerated with phis/constant conditions resolved)
+	selBlock := map[*ssa.BasicBlock]bool{}
+	for _, s := range sels {
+		selBlock[s.Block()] = true
+	}
+	opaque := func(bp *bpath) bool { // a branch on a boolean kept in memory: the path may be infeasible
+		for _, pc := range bp.Conds {
+			if u, ok := pc.V.(*ssa.UnOp); ok && u.Op == token.MUL {
+				switch u.X.(type) {
+				case *ssa.Alloc, *ssa.FreeVar:
+					// only a variable the goroutine itself assigns can be a loop flag; one it merely reads is data
+					var acc c13Acc
+					c13Access(u.X, nil, &acc, 0)
+					if len(acc.writes)+len(acc.unknown) > 0 {
+						return true
+					}
+				}
 			}
 		}
-		if !dom {
-			c.Fail(rule, fmt.Sprintf("%s#early-return%d", name, nRet), ret.Pos(), "the interrupt goroutine can return without having passed its select: close(stop) then aborts the search although no stop, quit, timeout or end of input occurred")
+		return false
+	}
+	nRet := 0
+	for _, b := range K.Blocks {
+		if _, ok := b.Instrs[len(b.Instrs)-1].(*ssa.Return); ok && b != K.Recover {
+			nRet++
 		}
 	}
-	c.Ok(rule, name+"#returns", K.Pos(), "%d returns examined for select dominance", nRet)
-	c.Floor(rule+".returns", nRet, 2, "returns of the interrupt goroutine (5 on the pinned tree: searchFin, timer, closed input, stop, quit)")
+	var early, earlyOpaque *bpath
+	done := enumBlockPaths(K.Blocks[0], func(_, to *ssa.BasicBlock) bool { return selBlock[to] }, 20000, func(bp *bpath) {
+		if bp.End != "return" {
+			return
+		}
+		if opaque(bp) {
+			earlyOpaque = bp
+		} else if early == nil {
+			early = bp
+		}
+	})
+	lastPos := func(bp *bpath) token.Pos {
+		b := bp.Blocks[len(bp.Blocks)-1]
+		return b.Instrs[len(b.Instrs)-1].Pos()
+	}
+	switch {
+	case early != nil:
+		c.Fail(rule, name+"#early-return1", lastPos(early), "the interrupt goroutine can return without having passed its select: close(stop) then aborts the search although no stop, quit, timeout or end of input occurred")
+	case !done || earlyOpaque != nil:
+		c.Undec(rule, name+"#returns", K.Pos(), "cannot show that every return of the interrupt goroutine lies behind its select (path budget exhausted or a branch on a flag kept in memory)")
+	default:
+		c.Ok(rule, name+"#returns", K.Pos(), "no path from the entry of the interrupt goroutine reaches a return (%d sites) without passing its select (phis and constant conditions resolved per path)", nRet)
+	}
+	c.Floor(rule+".returns", nRet, 1, "returns of the interrupt goroutine")
 	// closed inputLines
 	for i, s := range sels {
 		key := fmt.Sprintf("%s#select%d-closed-input", name, i+1)
@@ -2041,30 +2152,65 @@ func (k *c13k) r5() {
 		if !hasIn {
 			continue
 		}
-		verdict := 0
+		verdict, extracts := 0, 0
 		for _, r := range *s.Referrers() {
 			ex, ok := r.(*ssa.Extract)
 			if !ok || ex.Index != 1 {
 				continue
 			}
+			extracts++
 			for _, rr := range *ex.Referrers() {
-				iff, ok := rr.(*ssa.If)
-				if !ok {
+				var neg bool
+				var iff *ssa.If
+				switch y := rr.(type) {
+				case *ssa.If:
+					iff = y
+				case *ssa.UnOp:
+					if y.Op == token.NOT {
+						for _, r3 := range *y.Referrers() {
+							if f, ok := r3.(*ssa.If); ok {
+								iff, neg = f, true
+							}
+						}
+					}
+				}
+				if iff == nil {
 					continue
 				}
 				closedSucc := iff.Block().Succs[1]
-				if c13Path(closedSucc, 0, c13Is(s), nil) {
+				if neg {
+					closedSucc = iff.Block().Succs[0]
+				}
+				// does any feasible path from the !ok successor come back to the select?
+				back, backOpaque := false, false
+				fin := enumBlockPaths(closedSucc, func(_, to *ssa.BasicBlock) bool { return selBlock[to] }, 20000, func(bp *bpath) {
+					if bp.End == "arrive" && selBlock[bp.Arrive] {
+						if opaque(bp) {
+							backOpaque = true
+						} else {
+							back = true
+						}
+					}
+				})
+				switch {
+				case selBlock[closedSucc] || back:
 					verdict = -1
-				} else if verdict == 0 {
+				case !fin || backOpaque:
+					if verdict == 0 || verdict == 1 {
+						verdict = 2
+					}
+				case verdict == 0:
 					verdict = 1
 				}
 			}
 		}
-		switch verdict {
-		case 1:
-			c.Ok(rule, key, s.Pos(), "the !ok branch of the inputLines receive leads to return without re-entering the select")
-		case -1:
+		switch {
+		case verdict == 1:
+			c.Ok(rule, key, s.Pos(), "from the !ok branch of the inputLines receive no path re-enters the select: the goroutine leaves (and closes stop)")
+		case verdict == -1:
 			c.Fail(rule, key, s.Pos(), "after inputLines is closed (!ok) the interrupt goroutine goes back to its select instead of returning: the search is not stopped at end of input (and a closed channel left in the select is always ready: busy loop)")
+		case verdict == 2 || extracts > 0:
+			c.Undec(rule, key, s.Pos(), "cannot decide whether the interrupt goroutine leaves after inputLines is closed (ok is not tested by a plain branch, a flag is kept in memory, or the path budget ran out)")
 		default:
 			c.Fail(rule, key, s.Pos(), "the receive from inputLines does not test ok: once readInput has closed the channel the goroutine spins on empty lines instead of stopping the search")
 		}
@@ -2113,34 +2259,74 @@ func (k *c13k) r7() {
 			return true
 		}(), rule, "Run#make-"+st.role, ch.makes[0].Pos(), "%s must be made in Run before any pipeline goroutine starts (a nil channel blocks its users forever)", st.role)
 		call := callsIn(sp.child, st.callee)[0].(ssa.Instruction)
-		isClose := func(in ssa.Instruction) bool {
-			for _, cl := range ch.closes {
-				if cl.(ssa.Instruction) == in {
-					if _, d := cl.(*ssa.Defer); !d {
-						return true
+		// the goroutine's static call tree (the close may sit in the wrapper or in the stage function itself)
+		tree := map[*ssa.Function]bool{sp.child: true}
+		for d, front := 0, []*ssa.Function{sp.child}; d < 3 && len(front) > 0; d++ {
+			var next []*ssa.Function
+			for _, f := range front {
+				allInstrs(f, func(in ssa.Instruction) {
+					if ci, ok := in.(*ssa.Call); ok {
+						if g := ci.Call.StaticCallee(); g != nil && isOwn(g) && g.Blocks != nil && !tree[g] {
+							tree[g] = true
+							next = append(next, g)
+						}
 					}
+				})
+			}
+			front = next
+		}
+		var mine []ssa.CallInstruction
+		for _, cl := range ch.closes {
+			if tree[cl.Parent()] {
+				mine = append(mine, cl)
+			}
+		}
+		if len(mine) == 0 {
+			if len(ch.closes) > 0 {
+				c.Undec(rule, key+"→close", call.Pos(), "close(%s) is not in the call tree of goroutine %s: the rule cannot tie it to the end of %s", st.role, fnName(sp.child), st.callee)
+			}
+			continue // never closed at all: reported by C13.R2
+		}
+		isClose := func(in ssa.Instruction) bool {
+			for _, cl := range mine {
+				if cl.(ssa.Instruction) == in {
+					return true // a defer counts: once registered the close runs when that function exits
 				}
 			}
 			return false
 		}
+		var mustClose func(f *ssa.Function, depth int) bool
+		mustClose = func(f *ssa.Function, depth int) bool {
+			return !c13Path(f.Blocks[0], 0, c13IsReturn, func(in ssa.Instruction) bool {
+				if isClose(in) {
+					return true
+				}
+				if ci, ok := in.(*ssa.Call); ok && depth > 0 {
+					if g := ci.Call.StaticCallee(); g != nil && tree[g] && g != f {
+						return mustClose(g, depth-1)
+					}
+				}
+				return false
+			})
+		}
 		closedBefore := false
-		deferred := false
-		for _, cl := range ch.closes {
-			if cl.Parent() == sp.child {
-				if _, d := cl.(*ssa.Defer); d {
-					deferred = true
-				} else if c13After(cl.(ssa.Instruction), c13Is(call), nil) {
+		for _, cl := range mine {
+			if _, d := cl.(*ssa.Defer); d {
+				continue
+			}
+			for _, sc := range callsIn(cl.Parent(), st.callee) {
+				if c13After(cl.(ssa.Instruction), c13Is(sc.(ssa.Instruction)), nil) {
 					closedBefore = true
 				}
 			}
 		}
 		switch {
 		case closedBefore:
-			c.Fail(rule, key+"→close", call.Pos(), "close(%s) can run before %s in %s: the stage then sends on / ranges over an already closed channel", st.role, st.callee, fnName(sp.child))
-		case !deferred && c13After(call, c13IsReturn, isClose):
-			c.Fail(rule, key+"→close", call.Pos(), "%s can return after %s without close(%s): the next stage never terminates and Run never returns on quit/EOF", fnName(sp.child), st.callee, st.role)
+			c.Fail(rule, key+"→close", call.Pos(), "close(%s) can run before %s: the stage then sends on / ranges over an already closed channel", st.role, st.callee)
+		case !mustClose(sp.child, 3):
+			c.Fail(rule, key+"→close", call.Pos(), "goroutine %s can end after %s without close(%s): the next stage never terminates and Run never returns on quit/EOF", fnName(sp.child), st.callee, st.role)
 		default:
-			c.Ok(rule, key+"→close", call.Pos(), "in %s, close(%s) follows the return of %s on every path and never precedes the call", fnName(sp.child), st.role, st.callee)
+			c.Ok(rule, key+"→close", call.Pos(), "every path on which goroutine %s ends passes close(%s) (in %s), and the close never precedes a call of %s", fnName(sp.child), st.role, fnName(mine[0].Parent()), st.callee)
 		}
 	}
 	c.Floor(rule, found, 3, "pipeline goroutines of Run (readInput, handleInput, writeOutput)")
